@@ -27,7 +27,9 @@ RULE = ("Hypothesis ASTs from the documented grammar (all real instructions in e
         "have the documented effect when executed in the reference interpreter); labels = prefix sums; B/J displacements; "
         "a second rendering (other tape, in-line labels made stand-alone) yields the identical listing and data memory. "
         "non-trivial = a multi-instruction expansion precedes a referenced label, or an in-line label sits on a pseudo-"
-        "instruction; distinct = hash(AST)")
+        "instruction; distinct = hash(AST)"
+        ' The second rendering and an instruction-less text are then loaded into the USED simulation: same listing / da'
+        'ta as a fresh load, empty listing.')
 ASSUMPTIONS = [
     "label/variable names never equal a mnemonic, register or directive; no leading-zero decimals (that is C15's domain)",
     "t0 after a load-by-name is don't-care (help page: 't0 will be overwritten'); the address register of a store-by-name is never x0",
@@ -197,9 +199,33 @@ def check_grid(case, stats):
         stats.count(["grid", line], True, {"grid"}, sample_tag="grid")
 
 
+def check_fit(case, stats):
+    """A program that fills the instruction memory exactly (4096 instructions, the last group a two-instruction li, a jal
+    back to the first label) assembles like any other: consecutive addresses, right displacement over the maximal distance."""
+    n = case["n"]
+    lines = ["start:"] + ["addi x%d, x0, %d" % (i % 32, i % 2048) for i in range(n - 3)] + ["far: li x5, 100000", "jal x0, start"]
+    text = "\n".join(lines) + "\n"
+    try:
+        sim = _load(text)
+    except Exception as ex:
+        raise Violation("well-formed-program-rejected", case, f"{n} instructions (the instruction memory holds 4096): {type(ex).__name__}: {ex!r}")
+    em, err = emitted(sim)
+    if em is None or len(em) != n:
+        raise Violation("addresses-not-consecutive", case, err or f"{len(em)} instructions emitted for {n}")
+    want_jal = ["jal", 0, -4 * (n - 1)]
+    if em[-1][0] != want_jal:
+        raise Violation("real-instruction-displacement", case, f"last instruction {em[-1][0]}, denotes {want_jal}")
+    for i in (0, 1, n // 2, n - 4):
+        if em[i][0] != ["addi", i % 32, 0, i % 2048]:
+            raise Violation("real-instruction-operands", case, f"instruction {i}: {em[i][0]}")
+    stats.count(case, True, {"fit:%d" % n}, sample_tag="fit")
+
+
 def check(case, stats):
     if case.get("kind") == "grid":
         return check_grid(case, stats)
+    if case.get("kind") == "fit":
+        return check_fit(case, stats)
     ast = case["ast"]
     text, line_of = asm.render(ast, case["tape"])
     try:
@@ -344,6 +370,7 @@ def shards(tier, seed):
     total = len(grid_lines())
     step = 600
     items += [{"what": "grid", "lo": lo, "hi": min(total, lo + step)} for lo in range(0, total, step)]
+    items += [{"what": "fit", "n": 4096}] + ([{"what": "fit", "n": 4095}] if tier != "quick" else [])
     return items
 
 
@@ -352,4 +379,6 @@ def run_shard(item, stats):
         core.run_cases([{"kind": "grid", "lo": item["lo"], "hi": item["hi"]}], check, stats, core.known_matcher(ID, known_match))
         stats.exhaustive_parts.append("register-name x operand-position grid and number-spelling grid (deterministic)")
         return
+    if item.get("what") == "fit":
+        return core.run_cases([{"kind": "fit", "n": item["n"]}], check, stats, core.known_matcher(ID, known_match))
     core.hyp_search(case_strategy(item["lines"]), check, stats, item["n"], item["seed"], core.known_matcher(ID, known_match))
